@@ -169,6 +169,8 @@ class Program(object):
                 except SyntaxError as e:
                     raise AnalysisError('syntax error in %s: %s' % (path, e))
                 self.modules[rel] = ModuleInfo(rel, path, src, tree)
+        from .inline import Inliner
+        self.inlined = Inliner(self.modules).run()
         for m in self.modules.values():
             if m.name.startswith('examples'):
                 continue
